@@ -16,5 +16,9 @@ theorem el_case_windowSizeMsg : Tea.Gen.fact_el_case_windowSizeMsg = Tea.Doc.fac
 theorem order_Program_ReleaseTerminal : Tea.Gen.fact_order_Program_ReleaseTerminal = Tea.Doc.fact_order_Program_ReleaseTerminal := rfl
 theorem order_Program_RestoreTerminal : Tea.Gen.fact_order_Program_RestoreTerminal = Tea.Doc.fact_order_Program_RestoreTerminal := rfl
 theorem order_Program_Run : Tea.Gen.fact_order_Program_Run = Tea.Doc.fact_order_Program_Run := rfl
+theorem body_WithoutSignalHandler : Tea.Gen.fact_body_WithoutSignalHandler = Tea.Doc.fact_body_WithoutSignalHandler := rfl
+theorem body_WithoutSignals : Tea.Gen.fact_body_WithoutSignals = Tea.Doc.fact_body_WithoutSignals := rfl
+theorem body_WindowSize : Tea.Gen.fact_body_WindowSize = Tea.Doc.fact_body_WindowSize := rfl
+theorem body_NewProgram : Tea.Gen.fact_body_NewProgram = Tea.Doc.fact_body_NewProgram := rfl
 
 end Tea.Props.Bridge.C18
